@@ -357,9 +357,10 @@ def run_model(model, M, tier, seed, wdir, extra_behaviours=None):
                 cur.append(dict(op=oo, res=ev["res"], obs=ev.get("obs")))
     res.update(events=events, runs=runs, drift=drift, distinct=len(distinct),
                opres={"%s/%s" % k: v for k, v in sorted(opres.items())}, samples=samples[:3])
+    res["vacuity"] = []
     for need in M.get("need", []):
         if extra_behaviours is None and opres.get(tuple(need), 0) == 0:
-            raise ToolError("vacuity: no recorded step with op/result %s in model %s" % (need, model))
+            res["vacuity"].append("no recorded step with op/result %s in model %s" % (list(need), model))
     # ---- E3 ----------------------------------------------------------------------------------
     t0 = time.time()
     with cf.ThreadPoolExecutor(NCPU) as ex:
@@ -376,7 +377,7 @@ def run_model(model, M, tier, seed, wdir, extra_behaviours=None):
     res["monitor_evaluations"] = cnt
     for k in M.get("need_cnt", []):
         if extra_behaviours is None and cnt.get(k, 0) == 0:
-            raise ToolError("vacuity: counter %s stayed 0 on the recorded traces of model %s" % (k, model))
+            res["vacuity"].append("counter %s stayed 0 on the recorded traces of model %s" % (k, model))
     # attach the offending run (ops only) to each violation so that it can be replayed
     byfile = {}
     for v in viol:
@@ -456,6 +457,10 @@ def check_property(pid, P, MODELS, tier, seed):
                 % (v["mon"], v["key"], v["i"], len(v["ops"]), model, json.dumps(v["ops"][-1]) if v["ops"] else "-",
                    json.dumps(v.get("last"))))
     write_evidence(pid, P, MODELS, tier, seed, results, len(new), matched, time.time() - t0)
+    vac = [v for r in results for v in r.get("vacuity", [])]
+    if vac and not new:
+        # a coverage hole is a tool error, but never hides a violation that was found
+        raise ToolError("vacuity: " + "; ".join(vac[:5]))
     return 1 if new else 0
 
 
@@ -532,7 +537,8 @@ def selftest(model, M, seed=7):
     os.makedirs(wdir)
     binpath, _, _ = build_bin(M["bin"])
     tr = os.path.join(wdir, "t.ndjson")
-    r = sh([binpath, "drive", str(seed), "20", "30", tr])
+    runs, length = M.get("selftest_drive", (20, 30))
+    r = sh([binpath, "drive", str(seed), str(runs), str(length), tr])
     if r.returncode != 0:
         raise ToolError("selftest drive failed: " + r.stdout[-2000:])
     known = load_known()
@@ -542,6 +548,7 @@ def selftest(model, M, seed=7):
         raise ToolError("selftest: uncorrupted trace of %s already violates: %s" % (model, base_new[:2]))
     lines = open(tr).read().splitlines()
     ok = 0
+    todo = []
     for ci, corrupt in enumerate(M.get("selftest", [])):
         out = []
         done = False
@@ -556,7 +563,10 @@ def selftest(model, M, seed=7):
             raise ToolError("selftest: corruption %d of %s not applicable" % (ci, model))
         p = os.path.join(wdir, "c%d.ndjson" % ci)
         open(p, "w").write("\n".join(out) + "\n")
-        rr = run_tlc_trace(M["trace"], p, wdir, "c%d" % ci)
+        todo.append((ci, p))
+    with cf.ThreadPoolExecutor(max(1, min(NCPU, len(todo) or 1))) as ex:
+        rrs = list(ex.map(lambda a: run_tlc_trace(M["trace"], a[1], wdir, "c%d" % a[0]), todo))
+    for (ci, p), rr in zip(todo, rrs):
         if len(rr["viol"]) <= len(base["viol"]):
             raise ToolError("selftest: corrupted trace %d of %s was accepted" % (ci, model))
         ok += 1
@@ -576,8 +586,8 @@ def main(argv, PROPS, MODELS):
     seed = int(os.environ.get("VERIF_SEED", "1"))
     try:
         if a.pid == "selftest":
-            for m, M in MODELS.items():
-                selftest(m, M)
+            with cf.ThreadPoolExecutor(4) as ex:
+                list(ex.map(lambda mm: selftest(mm[0], mm[1]), sorted(MODELS.items())))
             return 0
         if a.pid == "build":
             for b in sorted({M["bin"] for M in MODELS.values()}):
